@@ -420,7 +420,7 @@ XalanEXSLTFunctionEncodeURI::execute(
             const XalanDOMChar nextChar = theString[++i];
             const XalanDOMChar lowSurrogate = XalanDOMChar(nextChar & 0x03FF);
 
-            const XalanDOMChar byte1 = XalanDOMChar(0xF0 + ((highSurrogate & 0x0300) >> 8));
+            const XalanDOMChar byte1 = XalanDOMChar(0xF0 + ((highSurrogate & 0x0700) >> 8));
             const XalanDOMChar byte2 = XalanDOMChar(0x80 + ((highSurrogate & 0x00FC) >> 2));
             const XalanDOMChar byte3 = XalanDOMChar(0x80 + ((highSurrogate & 0x0003) << 4) + ((lowSurrogate & 0x03C0) >> 6));
             const XalanDOMChar byte4 = XalanDOMChar(0x80 + (lowSurrogate & 0x003F));
